@@ -1711,12 +1711,14 @@ class CodeGenerator(StructuredCodeGenerator):
 
             self.emit_variable_decl(
                     fortran_name, sym_kind, is_argument=True,
-                    other_specifiers=("optional",))
+                    other_specifiers=("optional",),
+                    emit=self.declaration_emitter)
 
-        self.emit("")
+        self.declaration_emitter("")
 
-        self.emit("character :: dagrt_nan_str*3")
-        self.emit("real :: dagrt_nan")
+        self.declaration_emitter("character :: dagrt_nan_str*3")
+        self.declaration_emitter("real :: dagrt_nan")
+        self.declaration_emitter("")
 
         self.emit("dagrt_nan_str = 'NaN'")
         self.emit("read(dagrt_nan_str,*) dagrt_nan")
@@ -1997,12 +1999,14 @@ class CodeGenerator(StructuredCodeGenerator):
                 # state update notification.
                 self.declaration_emitter("integer "+name)
             else:
-                self.emit_variable_decl(name, arg_kind, is_argument=True)
+                self.emit_variable_decl(name, arg_kind, is_argument=True,
+                        emit=self.declaration_emitter)
 
         for name, res_kind in zip(result_names, result_kinds):
-            self.emit_variable_decl(name, res_kind, is_argument=True)
+            self.emit_variable_decl(name, res_kind, is_argument=True,
+                    emit=self.declaration_emitter)
 
-        self.emit("")
+        self.declaration_emitter("")
 
         # {{{ instrumentation
 
